@@ -436,7 +436,7 @@ fn whitespace(cfg: &Cfg) -> Report {
     let mut rep = Report::new();
     if cfg.mine(0) {
         // every byte value as prefix / suffix / both around 'x' and alone
-        for b in 0..=255u8 {
+        for b in (0..=255u8).filter(|b| !cfg.miri() || [9u8, 10, 11, 12, 13, 32, 0x85, 0xA0, 0x1C, b'x', 0, 0xFF].contains(b)) {
             for h in [vec![b, b'x'], vec![b'x', b], vec![b, b'x', b], vec![b], vec![b, b, b'x', b'y', b]] {
                 ws_bytes(&mut rep, &h);
                 if let Ok(s) = core::str::from_utf8(&h) {
@@ -446,7 +446,7 @@ fn whitespace(cfg: &Cfg) -> Report {
         }
     }
     let alpha: [u8; 8] = [b'\t', b'\n', 0x0B, 0x0C, b'\r', b' ', b'x', 0];
-    let all = bytes_upto(&alpha, cfg.by(2, 4, 5));
+    let all = bytes_upto(&alpha, cfg.by(1, 4, 5));
     rep.merge(par_for(cfg, all.len(), |i, r| {
         ws_bytes(r, &all[i]);
         ws_str(r, core::str::from_utf8(&all[i]).unwrap());
@@ -456,7 +456,7 @@ fn whitespace(cfg: &Cfg) -> Report {
     }));
     // non-ASCII whitespace must be kept
     let ualpha = [" ", "\t", "x", "\u{85}", "\u{a0}", "\u{2003}", "\u{c}"];
-    let us = strings_upto(&ualpha, cfg.by(2, 3, 4));
+    let us = strings_upto(&ualpha, cfg.by(1, 3, 4));
     rep.merge(par_for(cfg, us.len(), |i, r| {
         ws_str(r, &us[i]);
         ws_bytes(r, us[i].as_bytes());
@@ -468,9 +468,9 @@ fn whitespace(cfg: &Cfg) -> Report {
 
 pub fn run(cfg: &Cfg, trim: bool) -> (&'static str, Report, String, String) {
     let alpha = ["a", "b", "ñ"];
-    let (hl, nl) = (cfg.by(4, 6, 8), cfg.by(2, 3, 4));
+    let (hl, nl) = (cfg.by(3, 6, 8), cfg.by(3, 3, 4));
     let hs = strings_upto(&alpha, hl);
-    let ns = strings_upto(&alpha, nl);
+    let ns: Vec<String> = if cfg.miri() { ["", "a", "ñ", "ab", "aa", "ñb", "aab", "bñ"].iter().map(|x| x.to_string()).collect() } else { strings_upto(&alpha, nl) };
     let mut rep = par_for(cfg, hs.len(), |i, r| {
         for n in &ns {
             pair(r, trim, &hs[i], n);
@@ -481,8 +481,8 @@ pub fn run(cfg: &Cfg, trim: bool) -> (&'static str, Report, String, String) {
     });
     // raw byte alphabet incl. an invalid-UTF-8 byte; needle longer than haystack included
     let balpha = [0x61u8, 0x62, 0xFF];
-    let bhs = bytes_upto(&balpha, cfg.by(4, 6, 7));
-    let bns = bytes_upto(&balpha, cfg.by(2, 4, 5));
+    let bhs = bytes_upto(&balpha, cfg.by(2, 6, 7));
+    let bns = bytes_upto(&balpha, cfg.by(1, 4, 5));
     rep.merge(par_for(cfg, bhs.len(), |i, r| {
         for n in &bns {
             bytes_all_kinds(r, trim, &bhs[i], n);
@@ -497,15 +497,15 @@ pub fn run(cfg: &Cfg, trim: bool) -> (&'static str, Report, String, String) {
     }));
     // multi-byte needles whose encodings share bytes (ñ = C3 B1, ó = C3 B3, 個 = E5 80 8B, 倀 = E5 80 80)
     let malpha = ["ñ", "ó", "個", "倀", "x"];
-    let mhs = strings_upto(&malpha, cfg.by(3, 4, 5));
-    let mns = strings_upto(&malpha, 2);
+    let mhs = strings_upto(&malpha, cfg.by(1, 4, 5));
+    let mns = strings_upto(&malpha, cfg.by(1, 2, 2));
     rep.merge(par_for(cfg, mhs.len(), |i, r| {
         for n in &mns {
             pair(r, trim, &mhs[i], n);
         }
     }));
     // seeded random long inputs over 2-3 symbol alphabets
-    let nrand = cfg.by(20, 3000, 20000);
+    let nrand = cfg.by(4, 3000, 20000);
     rep.merge(par_for(cfg, nrand, |i, r| {
         let mut rng = Rng::new(cfg.seed.wrapping_mul(7_919).wrapping_add(i as u64));
         let al: &[&str] = if rng.chance(1, 2) { &["a", "b"] } else { &["a", "b", "ñ"] };
